@@ -118,6 +118,12 @@ def gen(rng, *, ia: bool = True, time: bool = True, conditionals: bool = True, c
             feats.add("attributes_named_like_mathematical_constants")
         touched.add(a)
         feats.add("module_state")
+    if not untranslatable and rng.random() < 0.25:
+        # a constant read through a module alias that the function binds itself, although its module binds the same alias
+        # to another module (whose constant of that name has another value): the local binding is what counts
+        comps.append({"kind": "derived", "name": "dlc", "fn": L(tb.t_localcfg), "args": [rng.choice(variables), rng.choice(params)]})
+        comps.append({"kind": "derived", "name": "dmc", "fn": L(tb.t_modulecfg), "args": [rng.choice(variables), rng.choice(params)]})
+        feats.add("function_local_module_alias_shadows_a_module_level_one")
     if not untranslatable and rng.random() < 0.2:
         # two different functions that share module, name and qualified name (defined under the two branches of a factory)
         a, b = rng.choice(variables), rng.choice(variables)
